@@ -436,3 +436,29 @@ func Refs(v ssa.Value) []ssa.Instruction {
 	}
 	return *r
 }
+
+// FieldOfDeep is FieldOf that additionally steps out of embedded structs: for
+// x.Embedded.f it returns x.
+func FieldOfDeep(v ssa.Value, fieldName string) (ssa.Value, bool) {
+	b, ok := FieldOf(v, fieldName)
+	if !ok {
+		return nil, false
+	}
+	for {
+		switch x := Strip(b).(type) {
+		case *ssa.FieldAddr:
+			st, ok := deref(x.X.Type()).Underlying().(*types.Struct)
+			if ok && st.Field(x.Field).Embedded() {
+				b = x.X
+				continue
+			}
+		case *ssa.Field:
+			st, ok := x.X.Type().Underlying().(*types.Struct)
+			if ok && st.Field(x.Field).Embedded() {
+				b = x.X
+				continue
+			}
+		}
+		return b, true
+	}
+}
